@@ -71,7 +71,11 @@ CANARIES = {
     "bsabs": ("B", lambda r: r.replace("/", "\\") + "\\canary\\secret.txt"),
     "bsrel": ("B", lambda r: "..\\..\\canary\\secret.txt"),
     "drive": ("B", lambda r: f"C:{r}/canary/secret.txt"),
+    "bsdown": ("B", lambda r: "a\\..\\..\\..\\canary\\secret.txt"),
+    "bsroot": ("B", lambda r: "a\\" + "..\\" * 16 + r.lstrip("/").replace("/", "\\") + "\\canary\\secret.txt"),
 }
+# canaries whose first component must exist in a scratch directory for the path to resolve: tried behind a real member a/r.txt
+CANARY_DOWN = ("reldown", "bsdown", "bsroot")
 CANARY_ORDER = list(CANARIES)
 CANARY_DIR = {"absdir": ("A", lambda r: f"{r}/canary"), "reldir": ("R", lambda r: "../../canary")}
 W1 = {"n": {"w": 1}, "t": "REG"}
@@ -697,6 +701,19 @@ def _small_part(kind):
                 yield {"c": "7z", "m": [sub, W1], "o": o}
                 yield {"c": "7z", "m": [sub], "o": o}
                 yield {"c": "7z", "m": [W1, sub, W2], "o": o}
+        # dot-dot chains that start below a directory a real member creates first (either separator spelling)
+        for kid in CANARY_DOWN:
+            nm = {"k": kid}
+            for sep in SEPS:
+                mk = {"n": gname("", sep, ".txt", ["a", "r"]), "t": "REG"}
+                for c in ZIPC + TARC:
+                    yield {"c": c, "m": [mk, {"n": nm, "t": "REG"}, W1]}
+                for f, ns in _flag_combos():
+                    if ns:
+                        continue          # the directory-making member needs its stream
+                    yield {"c": "7z", "m": [mk, _with_flags({"n": nm, "t": "REG"}, f), W1]}
+                    # listed after every entry that owns a stream: an entry without stream and without EmptyStream bit
+                    yield {"c": "7z", "m": [mk, W1, _with_flags({"n": nm, "t": "REG"}, f)]}
         # a link to the canary directory followed by a regular member "through" the link
         for did in CANARY_DIR:
             dn = {"k": did}
